@@ -6,6 +6,8 @@ package main
 
 import (
 	"fmt"
+	"go/constant"
+	"go/types"
 	"strings"
 
 	"golang.org/x/tools/go/ssa"
@@ -14,7 +16,7 @@ import (
 func init() {
 	register(&propDef{
 		id:      "C22",
-		explain: "Structural necessary conditions of 'compressed bodies decode to the original': (R1) every call of a function value produced by stackless.NewFunc has its 'queue full' bool result tested, and on the false outcome the wrapped function is run inline (or the bool is returned to a caller for which the same holds) - so work is never silently skipped under load; (R2) the body compressors (methods of Response that install a compressed body stream) agree on their guards, on resetting Content-Length for streams and on the epilogue, and each one's encoding token, one-shot compressor and stream compressor reach the same compression package; (R3) each is called only under a true HasAcceptEncodingBytes test of the token it stores. Not decided: decode(encode(x)) = x, level clamping, the codecs themselves.",
+		explain: "Structural necessary conditions of 'compressed bodies decode to the original': (R1) every call of a function value produced by stackless.NewFunc has its 'queue full' bool result tested, and on the false outcome the wrapped function is run inline (or the bool is returned to a caller for which the same holds) - so work is never silently skipped under load; (R2) the body compressors (methods of Response that install a compressed body stream) agree on their guards, on resetting Content-Length for streams and on the epilogue, and each one's encoding token, one-shot compressor and stream compressor reach the same compression package, and none gives the buffer that holds the uncompressed body back to its pool before the one-shot compressor has read it; (R3) each is called only under a true HasAcceptEncodingBytes test of the token it stores; (R5) wherever a codec constructor's rejection of a compression level ends in a panic, the level has passed a normaliser whose every return lies in the codec's valid range (constants of the codec package), so no caller-supplied level crashes the process. Not decided: decode(encode(x)) = x, the codecs themselves.",
 		run:     runC22,
 	})
 }
@@ -330,6 +332,44 @@ func runC22(p *Prog, r *Report) {
 		name := funcName(s.fn)
 		tokOf[s.fn] = s.token
 		r.Check("R2", name+": announces an encoding token and adds Vary: Accept-Encoding", s.token != "" && s.vary, p.Pos(s.fn.Pos()), "token="+s.token+" vary="+fmt.Sprint(s.vary))
+		// the source bytes of the one-shot compression live in the response's own body buffer: that buffer goes back
+		// to its pool only after the compressor has read it (a pooled buffer is handed to the next Get at once)
+		if s.oneShot != nil {
+			isPut := func(i ssa.Instruction) bool {
+				c, ok := i.(ssa.CallInstruction)
+				if !ok {
+					return false
+				}
+				f := c.Common().StaticCallee()
+				if f == nil || f.Name() != "Put" {
+					return false
+				}
+				for _, a := range c.Common().Args {
+					if _, fv := loadedField(a); fv != nil && fv.Name() == "body" {
+						return true
+					}
+				}
+				return false
+			}
+			bad := false
+			var wit []string
+			for _, b := range s.fn.Blocks {
+				for _, in := range b.Instrs {
+					if !isPut(in) {
+						continue
+					}
+					if hit, path := reachAvoiding(s.fn, in, func(i ssa.Instruction) bool {
+						c, ok := i.(ssa.CallInstruction)
+						return ok && c.Common().StaticCallee() == s.oneShot
+					}, nil, nil); hit != nil {
+						bad = true
+						wit = blocksString(p, path)
+					}
+				}
+			}
+			r.Check("R2", name+": the old body buffer goes back to its pool only after the one-shot compressor has read it", !bad, p.Pos(s.fn.Pos()),
+				"the buffer holding the uncompressed body is Put into the pool and the compressor reads it afterwards: a concurrent Get overwrites the source, and the response decodes to bytes the handler never produced", wit...)
+		}
 		r.Check("R2", name+": stream branch resets Content-Length to -1", s.setsCL, p.Pos(s.fn.Pos()), "a compressed stream has unknown length; keeping the old Content-Length frames the response wrongly")
 		sufs, known := wantPkg[s.tokenVal]
 		if !known {
@@ -393,6 +433,94 @@ func runC22(p *Prog, r *Report) {
 		})
 	}
 	r.Floor("R3", "coder selection sites", nsel, 7)
+	runC22Levels(p, r)
+}
+
+// runC22Levels (R5): a compression level comes from the caller and may be
+// anything. Where a codec constructor can fail for an invalid level and that
+// failure ends in a panic, the level handed to it has passed a normaliser all
+// of whose returns lie inside the codec's valid range (decided in the zone
+// domain against the constants of the codec package); where the failure is
+// handled (clamped and retried) nothing more is required.
+func runC22Levels(p *Prog, r *Report) {
+	type rng struct{ lo, hi string }
+	valid := map[string]rng{ // codec package path suffix -> names of its lowest / highest valid level
+		"compress/zstd": {"SpeedFastest", "SpeedBestCompression"},
+		"compress/gzip": {"HuffmanOnly", "BestCompression"},
+		"compress/zlib": {"HuffmanOnly", "BestCompression"},
+	}
+	n := 0
+	for _, fn := range p.funcsIn("") {
+		for _, b := range fn.Blocks {
+			for _, in := range b.Instrs {
+				c, ok := in.(*ssa.Call)
+				if !ok {
+					continue
+				}
+				f := c.Call.StaticCallee()
+				if f == nil || f.Pkg == nil || inModule(f) || !strings.HasPrefix(f.Name(), "NewWriter") {
+					continue
+				}
+				var vr rng
+				found := false
+				for suf, v := range valid {
+					if strings.HasSuffix(f.Pkg.Pkg.Path(), suf) {
+						vr, found = v, true
+					}
+				}
+				tup, isTup := c.Type().(*types.Tuple)
+				if !found || !isTup || tup.Len() != 2 {
+					continue
+				}
+				n++
+				name := fmt.Sprintf("%s: %s.%s", funcName(fn), f.Pkg.Pkg.Name(), f.Name())
+				hit, _ := reachAvoiding(fn, in, func(i ssa.Instruction) bool { _, isP := i.(*ssa.Panic); return isP }, nil, nil)
+				if hit == nil {
+					r.Check("R5", name+" cannot turn an invalid compression level into a panic", true, p.Pos(c.Pos()), "the constructor's error is handled")
+					continue
+				}
+				// the level that reaches the constructor: a normaliser call in this function
+				lo, okl := constOfObj(f.Pkg.Pkg, vr.lo)
+				hi, okh := constOfObj(f.Pkg.Pkg, vr.hi)
+				if !okl || !okh {
+					r.Undecided("R5", name, "level constants "+vr.lo+"/"+vr.hi+" not found in the codec package")
+					continue
+				}
+				lov, _ := constant.Int64Val(lo)
+				hiv, _ := constant.Int64Val(hi)
+				var norm *ssa.Function
+				allCalls(fn, func(bb *ssa.BasicBlock, cc ssa.CallInstruction) {
+					if g := cc.Common().StaticCallee(); g != nil && inModule(g) && len(g.Params) == 1 && isIntType(g.Params[0].Type()) &&
+						g.Signature.Results().Len() == 1 && isIntType(g.Signature.Results().At(0).Type()) && dominatesInstr(cc.(ssa.Instruction), in) {
+						norm = g
+					}
+				})
+				if norm == nil {
+					r.Check("R5", name+" cannot turn an invalid compression level into a panic", false, p.Pos(c.Pos()),
+						"a panic is reachable after the constructor and the level is not normalised in this function")
+					continue
+				}
+				res := zoneWalk(p, norm, nil, func(rt *ssa.Return) bool { return true }, func(z *zone, rt *ssa.Return) (bool, string) {
+					rv := returnResults(rt)[0]
+					a, oa := z.term(rv)
+					if !z.entails(0, lov, a, oa, 0) { // lo <= rv
+						return false, fmt.Sprintf("a return of %s is not shown to be >= %s (%d)", funcName(norm), vr.lo, lov)
+					}
+					if !z.entails(a, oa, 0, hiv, 0) { // rv <= hi
+						return false, fmt.Sprintf("a return of %s is not shown to be <= %s (%d)", funcName(norm), vr.hi, hiv)
+					}
+					return true, ""
+				}, nil)
+				if res.undecided != "" {
+					r.Undecided("R5", name, res.undecided)
+					continue
+				}
+				r.Check("R5", name+" cannot turn an invalid compression level into a panic", res.bad == 0 && res.successReturns > 0, p.Pos(c.Pos()),
+					fmt.Sprintf("a panic is reachable when the constructor rejects the level, and %s: a caller-supplied level outside the codec's range crashes the process (the panic is raised on a worker goroutine)", res.detail), res.witness...)
+			}
+		}
+	}
+	r.Floor("R5", "fallible codec constructors", n, 3)
 }
 
 // globalBytesValue evaluates a package-level `var x = []byte("...")` by
